@@ -260,10 +260,77 @@ def check_C03(chk):
 
 def check_C19(chk):
     thorough = chk.tier == "thorough"
-    generic_prog_check(chk, "C19", ["default", "memfd", "inprocess"], 1500 if thorough else 100, 60, True,
+    bins = generic_prog_check(chk, "C19", ["default", "memfd", "inprocess"], 1500 if thorough else 100, 60, True,
                        "prog driver: the same seeded deterministic single-threaded programs (<= 60 operations, <= 6 channels, queues <= 40) on three builds "
                        "(OS transport, memfd feature, in-process transport); outcome sequences must be equal across builds and equal to the Unix and Ideal models; "
                        "non-trivial = programs with at least one message carrying endpoints", False)
+    if bins:
+        api_stage(chk, "C19", bins, ["default", "memfd", "inprocess"], 900 if thorough else 90, 60)
+
+
+def api_stage(chk, prop, bins, flavours, nprog, nops, seed_off=21):
+    """programs over the whole public API (regions as handles, receiver sets, one-shot servers, undecodable messages) on several
+    builds: results must be equal across builds, equal to the generator's reference and equal to the Coq model Api.v"""
+    from . import api as A
+    rng = random.Random(chk.seed + seed_off)
+    progs, exps = [], {}
+    for i in range(nprog):
+        ops, exp = A.gen_program(rng, nops)
+        progs.append((i, ops))
+        exps[i] = exp
+    out = {}
+    with concurrent.futures.ThreadPoolExecutor(max_workers=8) as ex:
+        futs = {fl: [ex.submit(A.run_resilient, bins[fl], progs[k::3], 4096 if (fl != "inprocess" and k == 0) else None) for k in range(3) if progs[k::3]]
+                for fl in flavours}
+        for fl in flavours:
+            out[fl] = sorted([r for f in futs[fl] for r in f.result()], key=lambda r: r["prog"])
+    fails = 0
+    for fl in flavours:
+        for it in out[fl]:
+            why = None
+            exp = exps[it["prog"]]
+            for k, (a, b) in enumerate(zip(it["outs"], exp)):
+                if a != b:
+                    why = "operation %d (%s): the %s build answered %s, the ideal channel model says %s" % (k, A.op_line(it["ops"][k]), fl, a, b)
+                    break
+            if why is None and not it["complete"]:
+                k = len(it["outs"])
+                why = ("operation %d (%s) %s on the %s build" % (k, A.op_line(it["ops"][k]) if k < len(it["ops"]) else "end",
+                                                                "never returned (watchdog)" if it["hang"] else "ended the process: " + it["stderr"][-200:], fl))
+            if why is None and it["end"] and it["start"] and fl != "inprocess" and (it["end"]["fds"] != it["start"]["fds"] or it["end"]["maps"] != it["start"]["maps"]):
+                why = "after every handle was dropped the process holds %d descriptors / %d mappings instead of %d / %d" % (
+                    it["end"]["fds"], it["end"]["maps"], it["start"]["fds"], it["start"]["maps"])
+            if why:
+                fails += 1
+                if fails <= 4:
+                    ops = [A.op_line(o) for o in it["ops"]]
+                    chk.failing_input(why, {"build": fl, "program": ops, "observed_results": it["outs"]}, key=("api:%s:%s" % (fl, ";".join(ops)))[:400])
+    todo = []
+    for fl in flavours:
+        for j, it in enumerate(out[fl]):
+            todo.append(((fl, j), A.render(it)))
+    bad_render = [k for k, t in todo if t is None]
+    todo = [(i, t) for i, (k, t) in enumerate(x for x in todo if x[1] is not None)]
+    res, errors = C.coq_eval_sharded(A.HEADER, todo, lambda p: "Eval vm_compute in (%d, %s)." % p, prop.lower() + "api", shard=40)
+    nbad = sum(1 for i, _ in todo if res.get(i) != "true")
+    cov = chk.coverage
+    cov["api_programs"] = {fl: len(out[fl]) for fl in flavours}
+    cov["api_operations"] = sum(len(it["outs"]) for fl in flavours for it in out[fl])
+    dist = {}
+    for it in out[flavours[0]]:
+        for s in it["outs"]:
+            dist[s.split(" ")[0]] = dist.get(s.split(" ")[0], 0) + 1
+    cov["api_result_distribution"] = dist
+    cov["traces_validated_against_impl"] = cov.get("traces_validated_against_impl", 0) + len(todo)
+    cov["correspondence_mismatches"] = cov.get("correspondence_mismatches", 0) + nbad + len(bad_render)
+    if errors:
+        chk.unproved("model evaluation (coqc on generated api programs) failed", errors[0][-1500:])
+    if (nbad or bad_render) and not fails:
+        fl, j = bad_render[0] if bad_render else next(k for i, (k, t) in enumerate(x for x in [((f, jj), A.render(o)) for f in flavours for jj, o in enumerate(out[f])] if x[1] is not None) if res.get(i) != "true")
+        it = out[fl][j]
+        chk.unproved("correspondence ApiCheck.check_api: results differ from the model Api.v on %d of %d programs" % (nbad + len(bad_render), len(todo) + len(bad_render)),
+                     {"build": fl, "program": [A.op_line(o) for o in it["ops"]], "observed_results": it["outs"]})
+    return fails, nbad + len(bad_render)
 
 
 def check_C04(chk):
